@@ -264,6 +264,14 @@ def run_job(spec):
     res.absorb_engine(eng)
     res['trunc'] = [t for t in res['trunc'] if t and t[0] != 'conc_limit']
     res['samples'].append({'job': list(spec), 'paths': res['paths'], 'pairs_checked': res['counters'].get('pairs', 0)})
+    if kind == 'twin':
+        # concrete multi-frame streams (valid frames of a dozen types between NMEA / UBX / noise), replayed on the unmodified code: every
+        # returned pair is checked AFTER the whole stream was read (a parsed object must not change when later frames are read)
+        from . import concrete
+        for sd in range(3):
+            data_, exp_ = concrete.corpus_stream(sd + spec[1])
+            res['witnesses'].append({'kind': 'stream', 'data': data_.hex(), 'mode': spec[2], 'checks': ['c01', 'c04', 'frames'],
+                                     'expect_frames': [f.hex() for f in exp_]})
     return res
 
 
